@@ -929,6 +929,9 @@ class Tr:
                 sub.vars[pat_ast[2][0][1]]['alias'] = alias
             out += self.take_pre(env, ind)
             out.append(f'{ind}if let {p} := {st} then')
+            for mb in getattr(sub, 'mut_binds', []):
+                out.append(f'{ind}  let mut {lname(mb)} := {lname(mb)}')
+            sub.mut_binds = []
             out += self.seq(self.as_block(then), sub, mode, ind + '  ')
             env.fresh = max(env.fresh, sub.fresh)
         else:
